@@ -16,6 +16,7 @@ structure Sess where
   acquired : Bool := false
   gone : Bool := false
   expired : Bool := false
+  heldAtGotq : Bool := false
   released : Bool := false
 
 structure DSt where
@@ -38,7 +39,8 @@ def holdersMax (d : DSt) : Nat :=
 def tail (d : DSt) : String :=
   let e := d.s.map.length
   let q := queued d.s
-  s!"entries={e} queued={q} holders={holdersMax d}" ++ (if q == 0 && e > 0 then "\t#F:C28-queues-never-pruned" else "")
+  s!"entries={e} queued={q} inflight={d.s.calls.length} holders={holdersMax d}" ++
+    (if q == 0 && e > 0 && d.s.calls.isEmpty && d.s.unmapPending.isEmpty then "\t#F:C28-queues-never-pruned" else "")
 
 /-- the queue object currently mapped for a key -/
 def objOf (d : DSt) (k : Nat) : Option Nat := d.s.map.lookup k
@@ -100,6 +102,31 @@ def stepLine (d : DSt) (line : String) : DSt × String :=
         let d := setSess d n { key := k, short := ttl == "short", acquired := true }
         (d, s!"enq {n} acq {tail d}")
       else (d, s!"enq {n} wait {tail d}")
+  | ["lockh", ks] =>
+    match ks.toNat? with
+    | none => (d, "bad-op")
+    | some k =>
+      let n := d.sess.length + 1
+      let d := { d with sess := d.sess ++ [{ key := k, short := false, heldAtGotq := true }] }
+      let d := act (act d (.call n k)) (.getQueue n k)
+      (d, s!"gotq {n} {tail d}")
+  | ["go", ns] =>
+    match sessArg d ns with
+    | none => (d, s!"skip {tail d}")
+    | some (n, x) =>
+      if !x.heldAtGotq then (d, s!"skip {tail d}") else
+      -- enqueue on the pointer it holds; on a dead queue: getQueue again and enqueue there
+      let d := match d.s.calls.find? (·.id == n) with
+        | some c => (match c.ptr with
+          | some i => let d1 := act d (.enqueue n x.key i)
+                      if d1.s.calls.any (·.id == n) then enqueueLoop d1 n x.key 3 else d1
+          | none => enqueueLoop d n x.key 3)
+        | none => d
+      let granted := match (objOf d x.key).bind (fun i => d.s.objs[i]?) with
+        | some o => decide (n ∈ o.q.ready)
+        | none => false
+      let d := setSess d n { x with heldAtGotq := false, acquired := granted }
+      (d, s!"enq {n} {if granted then "acq" else "wait"} {tail d}")
   | ["unlock", ns] =>
     match sessArg d ns with
     | none => (d, s!"skip {tail d}")
@@ -125,7 +152,7 @@ def stepLine (d : DSt) (line : String) : DSt × String :=
     match sessArg d ns with
     | none => (d, s!"skip {tail d}")
     | some (n, x) =>
-      if x.cancelled then (d, s!"skip {tail d}") else
+      if x.cancelled || x.heldAtGotq then (d, s!"skip {tail d}") else
       let x := { x with cancelled := true }
       if x.acquired || x.gone then (setSess d n x, s!"cancel {n} noop {tail d}") else
       let d := setSess d n { x with gone := true }
